@@ -294,7 +294,7 @@ pub fn c13_configs(thorough: bool) -> Vec<EpCfg> {
     for role in [RoleK::Client, RoleK::Server] {
         for tam in [0u16, 1, 2] {
             for mode in ["manual", "auto-map", "auto-replace"] {
-                if !thorough && role == RoleK::Server && !(tam == 1 && mode == "auto-map") {
+                if !thorough && role == RoleK::Server && !(tam == 1 && mode == "auto-map") && !(tam == 2 && mode == "manual") {
                     continue;
                 }
                 let mut c = EpCfg::new(&cfg_name("c13", role, Some(Ver::V5), &format!("tam={tam} {mode}")), role, Some(Ver::V5));
@@ -310,6 +310,8 @@ pub fn c13_configs(thorough: bool) -> Vec<EpCfg> {
                     peer_ack_ids: vec![1, 2],
                     spontaneous_close: true,
                     regulate: true,
+                    // registrations attempted while the CONNACK is still outstanding (stored, not transmitted)
+                    pub_any_status: mode == "manual",
                     ..Alph::default()
                 };
                 let t = if tam == 0 { None } else { Some(tam) };
@@ -371,7 +373,7 @@ pub fn c13(rep: &mut Report) {
     for f in ["c13.bind", "c13.rebind", "c13.sent-by-alias", "c13.regulate-ok", "c13.regulate-refused", "c13.recv-invalid-alias", "c13.recv-aliased-delivered", "pub.refused", "closed", "session.resumed"] {
         rep.floor(f, 1);
     }
-    rep.assume("an empty-topic PUBLISH with alias a is only issued by the application if an earlier PUBLISH on the same connection that registered a was transmitted, and never in auto-map mode (there the library owns the bindings and may evict them)");
+    rep.assume("an empty-topic PUBLISH with alias a is only issued by the application if an earlier PUBLISH on the same connection that registered a was accepted by send() without an error, and never in auto-map mode (there the library owns the bindings and may evict them)");
 }
 
 // ------------------------------------------------------------------------------------------
